@@ -191,6 +191,18 @@ def _interp(ex, st, args, kwargs, node):
     return st.alloc(c, Arr((cn,), lambda ix, vals=vals: _select(vals, ix[0]), 'real'))
 
 
+@model('builtins.getattr')
+def _getattr(ex, st, args, kwargs, node):
+    if len(args) >= 2 and isinstance(args[1], str):
+        try:
+            return ex.getattr(args[0], args[1], st, node)
+        except EngineError:
+            if len(args) == 3:
+                return args[2]
+            raise
+    raise Unsupported('getattr with a computed name')
+
+
 @model('builtins.slice')
 def _slice(ex, st, args, kwargs, node):
     return ('<slice>',) + tuple(args)
@@ -1071,6 +1083,9 @@ def _dict(ex, st, args, kwargs, node):
         return st.alloc(ex.c, PyDict(dict(kwargs)))
     if len(args) == 1 and isinstance(args[0], Ref) and isinstance(st.get(args[0]), PyDict) and not kwargs:
         return st.alloc(ex.c, PyDict(dict(st.get(args[0]).items)))       # shallow copy
+    if len(args) == 1 and isinstance(args[0], Ref) and isinstance(st.get(args[0]), PyList) and not kwargs and \
+            all(isinstance(x, tuple) and len(x) == 2 and isinstance(x[0], str) for x in st.get(args[0]).items):
+        return st.alloc(ex.c, PyDict(dict(st.get(args[0]).items)))       # dict of (key, value) pairs
     raise Unsupported('dict(...)')
 
 
@@ -1148,9 +1163,23 @@ def list_method(ex, st, ref, name, args, kwargs, node):
         for i, x in enumerate(cell.items):
             if not (is_sym(x) or is_sym(args[0])) and x == args[0]:
                 return i
-        raise Unsupported('list.index symbolic / missing')
+        if all(not is_sym(x) for x in cell.items) and not is_sym(args[0]):
+            from .engine import _Raise, ExcV
+            raise _Raise(st, ExcV('ValueError', getattr(node, 'lineno', 0)))
+        raise Unsupported('list.index symbolic')
     if name == 'copy':
         return st.alloc(ex.c, PyList(cell.items))
+    if name == 'pop':
+        from .engine import _Raise, ExcV
+        i = conc_int(args[0]) if args else -1
+        if i is None:
+            raise Unsupported('list.pop symbolic index')
+        items = list(cell.items)
+        if not items or not -len(items) <= i < len(items):
+            raise _Raise(st, ExcV('IndexError', getattr(node, 'lineno', 0)))
+        v = items.pop(i)
+        st.put(ref, PyList(items))
+        return v
     raise Unsupported('list.%s' % name)
 
 
@@ -1198,6 +1227,8 @@ def str_method(ex, st, s, name, args, kwargs, node):
     if name == 'split':
         return st.alloc(ex.c, PyList(s.split(*args)))
     if name == 'join':
+        if args and isinstance(args[0], Ref) and isinstance(st.get(args[0]), PyList) and all(isinstance(x, str) for x in st.get(args[0]).items):
+            return s.join(st.get(args[0]).items)
         return '<joined>'
     raise Unsupported('str.%s' % name)
 
